@@ -128,44 +128,104 @@ def run(tier):
     # ---- (A) argument partition ---------------------------------------------------------------------------
     mf = fns[main]
     body = mir.Body(mf)
-    seeds = {}
+
+    def dashdash_closure(o):
+        """closure aggregate whose body compares its argument with the string "--" """
+        if not (o[0] == "agg" and str(o[1]).startswith("closure:")):
+            return False
+        cf = fns.get(o[1][len("closure:"):])
+        if cf is None:
+            return False
+        txt = repr(cf["body"]) + repr(cf.get("promoted", []))
+        return "'--'" in txt or '"--"' in txt
+
+    def from_args(o):
+        return mir.contains(o, lambda x: x[0] == "call" and x[1].endswith("env::args"))
+    seeds, fixed = {}, set()
+    # (a) iterator form: args().take_while(|v| v != "--") / args().skip_while(|v| v != "--"), collected
     for bb, t in body.calls():
         c = t.get("callee") or {}
         if c.get("name") == "collect":
             o = body.origin_operand(t["args"][0])
-            names = set()
-            for x in mir.walk(o):
-                if x[0] == "call":
-                    names.add(x[1].split("::")[-1])
-            if "args" in names and "take_while" in names:
-                seeds[t["d"]["l"]] = {"PRE"}
-            elif "args" in names and "skip_while" in names:
-                seeds[t["d"]["l"]] = {"POST"}
-    ck.ob("A-two-argument-vectors", "main", sorted(sum((sorted(v) for v in seeds.values()), [])) == ["POST", "PRE"],
-          "main does not split env::args() into a pre-`--` (take_while) and a post-`--` (skip_while) vector: %s" % seeds)
-    tn = taint.propagate(body, seeds)
-    n_cmd = 0
+            tw = [x for x in mir.walk(o) if x[0] == "call" and x[1].split("::")[-1] in ("take_while", "skip_while") and len(x[2]) > 1 and dashdash_closure(x[2][1])]
+            if from_args(o) and len(tw) == 1:
+                seeds[t["d"]["l"]] = {"PRE" if tw[0][1].endswith("take_while") else "POST"}
+                fixed.add(t["d"]["l"])
+    # (b) slice form: idx = X.iter().position(|v| v == "--") [.unwrap_or(..)] ; &X[..idx] is the pre part, &X[idx..] the post part
+    pos_seeds = {}
     for bb, t in body.calls():
         c = t.get("callee") or {}
-        p = c.get("path", "")
-        if p.endswith("Command::args"):
-            labels = taint.operand_taint(body, tn, t["args"][1])
-            n_cmd += 1
-            ck.ob("A-cbindgen-args-only-post", "main/Command::args@%d" % n_cmd, "PRE" not in labels,
-                  "a value derived from the pre-`--` arguments reaches Command::args", sample={"labels": sorted(labels)})
-        if p.endswith("File::open"):
-            labels = taint.operand_taint(body, tn, t["args"][0])
-            ck.ob("A-config-path-only-pre", "main/File::open", labels == {"PRE"}, "the config file path is derived from %s" % sorted(labels), sample={"labels": sorted(labels)})
-        if p.endswith("File::create"):
-            labels = taint.operand_taint(body, tn, t["args"][0])
-            ck.ob("A-output-path-from-post", "main/File::create", labels == {"POST"}, "the output path is derived from %s" % sorted(labels))
-        if c.get("name") in ("write_all", "write"):
-            o = body.origin_operand(t["args"][1])
-            ok = mir.contains(o, lambda x: x[0] == "call" and x[1].endswith("::parse_header"))
-            ck.ob("A-written-value-is-processed-header", "main/" + c.get("name"), ok, "main writes %s to the output file, not the result of parse_header" % mir.fmt(o)[:160])
-    post_used = any("POST" in taint.operand_taint(body, tn, t["args"][1]) for bb, t in body.calls() if (t.get("callee") or {}).get("path", "").endswith("Command::args"))
-    ck.ob("A-post-args-forwarded", "main", post_used, "no Command::args call receives the post-`--` arguments")
-    ck.floor("Command::args calls", n_cmd, 2)
+        if c.get("name") == "position" and len(t["args"]) > 1 and dashdash_closure(body.origin_operand(t["args"][1])) and from_args(body.origin_operand(t["args"][0])):
+            pos_seeds[t["d"]["l"]] = {"POS"}
+    pos_t = taint.propagate(body, pos_seeds) if pos_seeds else {}
+    for bb, t in body.calls():
+        c = t.get("callee") or {}
+        if c.get("name") in ("index", "index_mut", "get") and len(t["args"]) > 1 and from_args(body.origin_operand(t["args"][0])):
+            r = body.origin_operand(t["args"][1])
+            if r[0] == "agg" and str(r[1]).split("::")[-1] in ("RangeTo", "RangeFrom", "Range"):
+                kind = str(r[1]).split("::")[-1]
+                # which bound derives from the position of "--"
+                bound_pos = {}
+                # operands of the aggregate statement (to ask the taint of each bound)
+                for i2 in sorted(body.live_blocks()):
+                    for st_ in body.blocks[i2]["s"]:
+                        if st_["k"] == "assign" and st_["r"]["k"] == "agg" and st_["r"].get("adt") == r[1] and body.origin_rvalue(st_["r"]) == r:
+                            for nm, op in zip(st_["r"]["fields"], st_["r"]["ops"]):
+                                bound_pos[nm] = "POS" in taint.operand_taint(body, pos_t, op)
+                if kind == "RangeTo" and bound_pos.get("end"):
+                    seeds[t["d"]["l"]] = {"PRE"}
+                    fixed.add(t["d"]["l"])
+                elif kind == "Range" and bound_pos.get("end") and not bound_pos.get("start"):
+                    seeds[t["d"]["l"]] = {"PRE"}
+                    fixed.add(t["d"]["l"])
+                elif kind == "RangeFrom" and bound_pos.get("start"):
+                    seeds[t["d"]["l"]] = {"POST"}
+                    fixed.add(t["d"]["l"])
+    ck.ob("A-two-argument-vectors", "main", sorted(set(sum((sorted(v) for v in seeds.values()), []))) == ["POST", "PRE"],
+          "main does not split env::args() at `--` into a pre part and a post part (take_while/skip_while on `!= \"--\"`, or slices cut at the position of \"--\"): %s" % seeds)
+    tn = taint.propagate(body, seeds, fixed)
+    counters = {"cmd": 0, "open": 0, "create": 0}
+
+    def scan(fbody, ftaint, where, depth=0):
+        """Sinks of the partition clause in one body; crate-local callees that receive labelled values are scanned with the labels of
+        their parameters (one level is what main's helpers need)."""
+        for bb, t in fbody.calls():
+            c = t.get("callee") or {}
+            p = c.get("path", "")
+            if p.endswith("Command::args"):
+                labels = taint.operand_taint(fbody, ftaint, t["args"][1])
+                counters["cmd"] += 1
+                ck.ob("A-cbindgen-args-only-post", "%s/Command::args@%d" % (where, counters["cmd"]), "PRE" not in labels,
+                      "a value derived from the pre-`--` arguments reaches Command::args", sample={"labels": sorted(labels)})
+                if "POST" in labels:
+                    counters["post_forwarded"] = True
+            if p.endswith("File::open") or p in ("std::fs::read", "std::fs::read_to_string"):
+                labels = taint.operand_taint(fbody, ftaint, t["args"][0])
+                counters["open"] += 1
+                ck.ob("A-config-path-only-pre", "%s/%s" % (where, p.split("::")[-1]), labels == {"PRE"}, "the config file path is derived from %s" % sorted(labels), sample={"labels": sorted(labels)})
+            if p.endswith("File::create") or p == "std::fs::write":
+                labels = taint.operand_taint(fbody, ftaint, t["args"][0])
+                counters["create"] += 1
+                ck.ob("A-output-path-from-post", "%s/%s" % (where, p.split("::")[-1]), labels == {"POST"}, "the output path is derived from %s" % sorted(labels))
+            if c.get("name") in ("write_all", "write") and len(t["args"]) > 1:
+                o = fbody.origin_operand(t["args"][1])
+                ok = mir.contains(o, lambda x: x[0] == "call" and x[1].endswith("::parse_header"))
+                ck.ob("A-written-value-is-processed-header", "%s/%s" % (where, c.get("name")), ok, "%s writes %s to the output file, not the result of parse_header" % (where, mir.fmt(o)[:160]))
+            callee = fns.get((c.get("res") or {}).get("path") or p)
+            if callee is not None and depth < 2 and "::{closure" not in callee["path"] and not callee["path"].endswith("parse_header"):
+                cb = mir.Body(callee)
+                cseeds = {}
+                for idx, a in enumerate(t["args"]):
+                    labels = taint.operand_taint(fbody, ftaint, a)
+                    if labels:
+                        cseeds[idx + 1] = set(labels)
+                if cseeds:
+                    scan(cb, taint.propagate(cb, cseeds), callee["path"].split("::")[-1], depth + 1)
+    scan(body, tn, "main")
+    ck.ob("A-config-path-only-pre", "main/config-is-read", counters["open"] >= 1, "no file read whose path comes from the pre-`--` arguments was found (config handling)")
+    ck.ob("A-output-path-from-post", "main/output-is-written", counters["create"] >= 1, "no file creation whose path comes from the post-`--` arguments was found (output hijack)")
+    ck.ob("A-post-args-forwarded", "main", bool(counters.get("post_forwarded")), "no Command::args call receives the post-`--` arguments")
+    ck.floor("Command::args calls", counters["cmd"], 2)
     return ck.finish(
         "call-graph reachability from main of order-exposing hash iteration with per-site sink classification (unordered sink / single-survivor "
         "constant table / flows into output), and taint propagation in main for the pre/post `--` argument partition and the written value",
